@@ -4,6 +4,15 @@ SHAPE_NOTE = ("Container shapes in the typing context are fixed and small while 
               "(floats as reals); pyvc itself is trusted (cross-checked against CPython on solver-generated inputs each run).")
 
 META = {
+    "C05": {
+        "text": "Level 'other': contracts prove the placement mechanism (rigid-motion placement, distance-preserving torsion "
+                "moves with cell bracketing, peptide partners only across real peptide bonds) and an exhaustive template "
+                "table shows that every dihedral's moved set is a bonded group apart from known finding D13; the statement "
+                "as a whole (every added atom, every option set, under input distortion) is not decided by contracts - a "
+                "bounded numeric floor on shipped fragments stands next to them, labelled bounded.",
+        "note": "rebuild_tetrahedral, the hydrogen optimiser's candidate positions and nucleic-acid placement are not under "
+                "contract; tolerances 0.15 A / 15 degrees in the bounded floor. " + SHAPE_NOTE,
+    },
     "C04": {
         "text": "Proved: Debump.set_dihedral_angle writes coordinates only of the atoms ranked beyond the pivot, each keeps "
                 "its distance to both axis atoms and to the other moved atoms (through qchichange's contract), backbone and "
